@@ -1,6 +1,7 @@
 SPECIFICATION Spec
 CONSTANTS
   Configs <- Vod0Quick
+  Fix = FALSE
   EmitGen = FALSE
   Seed = 0
 INVARIANTS InvTimelineEdgeAll
